@@ -166,7 +166,7 @@ fn run_neg<const N: usize, const M: usize>(ty: tast::Ty) {
     let r = typer.parse_integer_literal_with_ty(&mut diags, s, &ty);
     assert!(r.is_none(), "O10.1 negative text accepted at an unsigned type");
     assert!(diags.len() == 1 && diags.has_errors(), "O10.1 negative text at an unsigned type: not exactly one error diagnostic");
-    kani::cover!(bytes[M - 1] == b'0' && M == 2, "minus zero");
+    kani::cover!(bytes[M - 1] == b'0', "negative literal ending in 0");
     kani::cover!(bytes[1] == b'9', "negative literal with leading 9");
     let _ = N;
     std::mem::forget((typer, diags, r));
@@ -302,11 +302,12 @@ fn float_fits() {
     let value = f64::from_bits(bits);
     let which: u8 = kani::any();
     kani::assume(which < 3);
-    let ty = match which {
+    // ManuallyDrop: the drop glue of a `tast::Ty` whose variant is symbolic is a recursion CBMC cannot bound
+    let ty = std::mem::ManuallyDrop::new(match which {
         0 => tast::Ty::TFloat32,
         1 => tast::Ty::TFloat64,
         _ => tast::Ty::TInt32,
-    };
+    });
     assert!((f32::MAX as f64).to_bits() == F32_MAX_AS_F64_BITS);
 
     typer.ensure_float_literal_fits(&mut diags, value, &ty);
